@@ -21,7 +21,7 @@ from .proxies import ctx, PathAbort, SInt, SReal, wrap, lift, Unsupported
 
 
 class LoopSpec:
-    def __init__(self, inv, decreases=None, havoc=None, loop_var_range=None, name='', lemmas=None, abstractions=None):
+    def __init__(self, inv, decreases=None, havoc=None, loop_var_range=None, name='', lemmas=None, abstractions=None, heap_havoc=None):
         """inv(state, state0) -> T (bool) | list[(label, T)]   state: dict name -> current value
         decreases(state) -> T (int), must be >= 0 and strictly decrease over one iteration
         havoc: optional dict name -> callable(old_value, ctx) -> fresh value (default: by type)"""
@@ -31,6 +31,7 @@ class LoopSpec:
         self.name = name
         self.abstractions = abstractions or {}    # local name -> (state, tensor) -> [(label, fn(n) -> T)]: after the assignment the
         # facts are proved about the computed tensor at a fresh index and the local is re-bound to an opaque tensor satisfying them
+        self.heap_havoc = heap_havoc   # (state) -> None: havoc of heap locations the body writes (module buffers written by hooks ...)
         self.lemmas = lemmas      # (state) -> [(label, T)]: intermediate assertions, each proved then assumed (cut rule)
 
 
@@ -57,6 +58,8 @@ class _Runtime:
     def assume(self, k, state):
         spec = self.loops[k]
         c = ctx()
+        if spec.heap_havoc is not None:
+            spec.heap_havoc(state)
         for (label, cond) in _as_list(spec.inv(state, self.entry[k])):
             c.assume(cond)
         self._pre = dict(state)
@@ -186,6 +189,42 @@ def default_havoc(name, old, c, k):
     raise Unsupported('cannot havoc %s of type %s' % (name, type(old).__name__))
 
 
+class SymList(list):
+    """A Python list of tensors of which the first `stacked_len` LOGICAL elements are represented by one
+    stacked tensor (physical item 0, shape (..., stacked_len, H): element k is stacked[..., k:k+1, :]) -
+    the havocked value of a list that a cut loop grows by `append`.  Items appended afterwards are
+    ordinary physical items, so `torch.cat(self, dim=-2)` of the shim is the concatenation of all
+    logical elements.  Only what the cut bodies use is supported: append, [-1], iteration by cat."""
+
+    def __init__(self, stacked, stacked_len):
+        super().__init__([stacked])
+        self.stacked = stacked
+        self.stacked_len = stacked_len
+
+    def __getitem__(self, k):
+        if isinstance(k, int) and not hasattr(k, '_term') and k == -1:
+            if len(self) > 1:
+                return list.__getitem__(self, -1)
+            L = lift(self.stacked_len)
+            c = ctx()
+            c.oblige('bounds', 'last element of a list of symbolic length: length >= 1', tm.ge(L, tm.IONE))
+            st = self.stacked
+            rd = st.reader()
+            from .torchlib.tensor import Tensor
+            d = len(st._shape) - 2
+            shape = st._shape[:d] + (1,) + st._shape[d + 1:]
+            return Tensor.fresh(lambda idx: rd(idx[:d] + (tm.add(tm.sub(L, tm.IONE), idx[d]),) + idx[d + 1:]), shape, st.dtype, st.deps)
+        raise Unsupported('indexing a list of symbolic length at %r' % (k,))
+
+    def logical_len(self):
+        return tm.add(lift(self.stacked_len), tm.const(len(self) - 1, 'I'))
+
+
+def list_len(x):
+    """logical length (term) of a plain list or a SymList"""
+    return x.logical_len() if isinstance(x, SymList) else tm.const(len(x), 'I')
+
+
 class _Unbound:
     """value of a name that is first assigned inside the loop body (unbound at loop entry)"""
     def __repr__(self):
@@ -220,6 +259,9 @@ class _Cutter(ast.NodeTransformer):
                     tgt = [sub.target]
                 elif isinstance(sub, (ast.For,)):
                     tgt = [sub.target]
+                if isinstance(sub, ast.Call) and isinstance(sub.func, ast.Attribute) and sub.func.attr in ('append', 'extend', 'insert', 'pop') \
+                        and isinstance(sub.func.value, ast.Name) and sub.func.value.id not in names:
+                    names.append(sub.func.value.id)      # a list grown in the body: havocked as a whole (needs a havoc rule: SymList)
                 for t_ in tgt:
                     # plain names (and names in tuple/list unpacking) are re-bound; `x[i] = ...` mutates the
                     # tensor bound to x, which is havocked as a whole; `x.attr = ...` is left alone
